@@ -175,3 +175,42 @@ package stateful
 //@ sweep ^\(\*EvalFunctionNode\)\.(callFunction|Eval\w+)$
 //@   props C04 C05
 //@   requires forall i int :: 0 <= i && i < len(n.argsEvaluators) ==> n.argsEvaluators[i] != nil
+
+// ---------------------------------------------------------------- eval_binary_node.go (C04)
+// "The result for a point depends only on the expression [and] the point ... never on which field
+// types ... the compiled expression saw before": the binary node caches the table entry for the
+// operand types it saw last. What keeps a cached entry from leaking into the next point:
+//  - EvalBool re-specialises on every call when either operand is dynamic (a reference, a
+//    function call): the operand types of THIS point select the entry;
+//  - the other typed entry points go through eval, whose type-guard retry is trusted here.
+//@ func (NodeEvaluator).IsDynamic
+//@   trusted
+//@   pure
+//@ func (*EvalBinaryNode).eval
+//@   trusted
+//@ func (*EvalBinaryNode).lookupEvaluationFn
+//@   trusted
+//@   pure
+//@ func (resultContainer).value
+//@   trusted
+//@   pure
+
+// evaluateDynamicNode: the operand types of this point are read, stored, and the entry for
+// (operator, those types) replaces the cached one before anything is evaluated.
+//@ func (*EvalBinaryNode).evaluateDynamicNode
+//@   props C04
+//@   requires e != nil && left != nil && right != nil
+//@   ensures [left-type-error] callresult(left.Type, 1) != nil ==> result1 != nil && result1.IsLeft && result1.error == callresult(left.Type, 1) && !called(eval)
+//@   ensures [right-type-error] callresult(left.Type, 1) == nil && callresult(right.Type, 1) != nil ==> result1 != nil && result1.IsRight && result1.error == callresult(right.Type, 1) && !called(eval)
+//@   ensures [evaluated-after-respecialising] callresult(left.Type, 1) == nil && callresult(right.Type, 1) == nil ==> called(lookupEvaluationFn) && called(eval)
+//@       && result0 == callresult(eval, 0) && result1 == callresult(eval, 1)
+//@   guardcall lookupEvaluationFn#1: e.leftType == callresult(left.Type, 0) && e.rightType == callresult(right.Type, 0)
+//@   guardcall eval#1: e.evaluationFn == callresult(lookupEvaluationFn, 0)
+
+// EvalBool: dynamic operands -> re-specialise for this point; constant operands -> the entry
+// fixed at compile time. The boolean of the result container, or the operand's error.
+//@ func (*EvalBinaryNode).EvalBool
+//@   props C04
+//@   requires e != nil && e.leftEvaluator != nil && e.rightEvaluator != nil
+//@   ensures [dynamic-respecialises] old(e.leftEvaluator.IsDynamic() || e.rightEvaluator.IsDynamic()) ==> called(evaluateDynamicNode) && !called(eval)
+//@   ensures [static-uses-compiled-entry] !old(e.leftEvaluator.IsDynamic() || e.rightEvaluator.IsDynamic()) ==> called(eval) && !called(evaluateDynamicNode)
